@@ -146,74 +146,159 @@ func normSx(t string) string {
 	return ns[0].String()
 }
 
-// decodeModel extracts Go values for the function's parameters.
+// modelDecoder reads a model of a failed obligation value by value, pinning
+// what it has read so that successive solver calls stay within one model.
+type modelDecoder struct {
+	ck    *Check
+	x     *Exec
+	vc    *VC
+	pins  []string
+	calls int
+	ok    bool
+}
+
+func (d *modelDecoder) get(terms ...Term) []*sx {
+	if !d.ok || d.calls > 60 {
+		d.ok = false
+		return nil
+	}
+	d.calls++
+	var ts []string
+	for _, t := range terms {
+		ts = append(ts, t.S)
+	}
+	vals, ok := d.ck.getValues(d.x, d.vc, d.pins, ts)
+	if !ok {
+		d.ok = false
+		return nil
+	}
+	out := make([]*sx, len(terms))
+	for i, t := range terms {
+		out[i] = vals[normSx(t.S)]
+		if out[i] == nil {
+			d.ok = false
+			return nil
+		}
+		if t.Sort == SInt || t.Sort == SBool {
+			d.pins = append(d.pins, fmt.Sprintf("(= %s %s)", t.S, out[i].String()))
+		}
+	}
+	return out
+}
+
+// goLit returns Go source for the model's value of term t of type ty.
+func (d *modelDecoder) goLit(t Term, ty types.Type, depth int) (string, bool) {
+	if depth > 4 {
+		return "", false
+	}
+	P := d.x.P
+	switch u := ty.Underlying().(type) {
+	case *types.Basic:
+		switch {
+		case u.Info()&types.IsBoolean != 0:
+			v := d.get(t)
+			if v == nil {
+				return "", false
+			}
+			return v[0].atom, true
+		case u.Info()&types.IsInteger != 0:
+			v := d.get(t)
+			if v == nil {
+				return "", false
+			}
+			n, ok := sxInt(v[0])
+			if !ok {
+				return "", false
+			}
+			return fmt.Sprintf("%s(%d)", types.TypeString(ty, func(p *types.Package) string { return p.Name() }), n), true
+		case u.Info()&types.IsString != 0:
+			v := d.get(StrLen(t))
+			if v == nil {
+				return "", false
+			}
+			n, ok := sxInt(v[0])
+			if !ok || n > 4096 || n < 0 {
+				return "", false
+			}
+			bs := make([]byte, n)
+			var ts []Term
+			for i := int64(0); i < n; i++ {
+				ts = append(ts, StrByte(t, Int(i)))
+			}
+			if n > 0 {
+				vs := d.get(ts...)
+				if vs == nil {
+					return "", false
+				}
+				for i := range vs {
+					b, _ := sxInt(vs[i])
+					bs[i] = byte(b)
+				}
+			}
+			return strconv.Quote(string(bs)), true
+		}
+	case *types.Slice:
+		v := d.get(SlLen(t))
+		if v == nil {
+			return "", false
+		}
+		n, ok := sxInt(v[0])
+		if !ok || n > 64 || n < 0 {
+			return "", false
+		}
+		tn := types.TypeString(ty, func(p *types.Package) string { return p.Name() })
+		if n == 0 {
+			return "(" + tn + ")(nil)", true
+		}
+		es := P.sortOf(u.Elem())
+		if isStruct(u.Elem()) {
+			return "", false
+		}
+		h := d.x.decls["H0!E!"+string(es)]
+		if h == "" {
+			d.x.declare("H0!E!"+string(es), heapSort("E!"+string(es), es))
+		}
+		heap := Term{sym("H0!E!" + string(es)), heapSort("E!"+string(es), es)}
+		var parts []string
+		for i := int64(0); i < n; i++ {
+			et := Select(Select(heap, SlArr(t), Sort(fmt.Sprintf("(Array Int %s)", es))), Add(SlOff(t), Int(i)), es)
+			lit, ok := d.goLit(et, u.Elem(), depth+1)
+			if !ok {
+				return "", false
+			}
+			parts = append(parts, lit)
+		}
+		return tn + "{" + strings.Join(parts, ", ") + "}", true
+	case *types.Struct:
+		si := P.structOf(ty)
+		tn := types.TypeString(ty, func(p *types.Package) string { return p.Name() })
+		var parts []string
+		for i, f := range si.Fields {
+			if f.Name == "_" || isArray(f.Ty) {
+				continue
+			}
+			lit, ok := d.goLit(si.get(t, i), f.Ty, depth+1)
+			if !ok {
+				return "", false
+			}
+			parts = append(parts, f.Name+": "+lit)
+		}
+		return tn + "{" + strings.Join(parts, ", ") + "}", true
+	}
+	return "", false
+}
+
+// decodeModel extracts Go literals for the function's parameters.
 func (ck *Check) decodeModel(x *Exec, r *Result) map[string]any {
 	out := map[string]any{}
-	vc := r.VC
-	var terms []string
-	for _, p := range vc.Inputs {
-		switch p.V.T.Sort {
-		case SInt, SBool:
-			terms = append(terms, p.V.T.S)
-		case SStr:
-			terms = append(terms, StrLen(p.V.T).S)
-		case SSlice:
-			terms = append(terms, SlLen(p.V.T).S)
+	d := &modelDecoder{ck: ck, x: x, vc: r.VC, ok: true}
+	for _, p := range r.VC.Inputs {
+		if p.V.Ty == nil || p.V.T.IsZero() {
+			continue
 		}
-	}
-	vals, ok := ck.getValues(x, vc, nil, terms)
-	if !ok {
-		return out
-	}
-	var pins []string
-	var terms2 []string
-	type strReq struct {
-		key  string
-		term Term
-		n    int64
-	}
-	var reqs []strReq
-	for _, p := range vc.Inputs {
-		switch p.V.T.Sort {
-		case SInt:
-			if v, ok := sxInt(vals[normSx(p.V.T.S)]); ok {
-				out[p.Name] = v
-				pins = append(pins, Eq(p.V.T, Int(v)).S)
-			}
-		case SBool:
-			if v := vals[normSx(p.V.T.S)]; v != nil {
-				out[p.Name] = v.atom == "true"
-				pins = append(pins, Eq(p.V.T, Bool(v.atom == "true")).S)
-			}
-		case SStr:
-			if n, ok := sxInt(vals[normSx(StrLen(p.V.T).S)]); ok {
-				pins = append(pins, Eq(StrLen(p.V.T), Int(n)).S)
-				if n > 2048 {
-					out[p.Name] = fmt.Sprintf("<string of length %d>", n)
-					continue
-				}
-				reqs = append(reqs, strReq{p.Name, p.V.T, n})
-				for i := int64(0); i < n; i++ {
-					terms2 = append(terms2, StrByte(p.V.T, Int(i)).S)
-				}
-			}
-		case SSlice:
-			if n, ok := sxInt(vals[normSx(SlLen(p.V.T).S)]); ok {
-				pins = append(pins, Eq(SlLen(p.V.T), Int(n)).S)
-				out[p.Name+".len"] = n
-			}
-		}
-	}
-	vals2, ok := ck.getValues(x, vc, pins, terms2)
-	if ok {
-		for _, rq := range reqs {
-			bs := make([]byte, rq.n)
-			for i := int64(0); i < rq.n; i++ {
-				if v, ok := sxInt(vals2[normSx(StrByte(rq.term, Int(i)).S)]); ok {
-					bs[i] = byte(v)
-				}
-			}
-			out[rq.key] = string(bs)
+		d.ok = true
+		if lit, ok := d.goLit(p.V.T, p.V.Ty, 0); ok {
+			out[p.Name] = lit
 		}
 	}
 	return out
@@ -282,7 +367,7 @@ func pkgDirOf(P *Prog, pkg *types.Package) string {
 // Returns (report, attempted, confirmed).
 func (ck *Check) replayOnRealCode(x *Exec, r *Result, model map[string]any) (map[string]any, bool, bool) {
 	fn := x.fn
-	if fn == nil || fn.Signature.Recv() != nil || fn.Parent() != nil {
+	if fn == nil || fn.Parent() != nil {
 		return nil, false, false
 	}
 	var args []string
@@ -291,25 +376,19 @@ func (ck *Check) replayOnRealCode(x *Exec, r *Result, model map[string]any) (map
 		if !ok {
 			return nil, false, false
 		}
-		switch t := p.Type().Underlying().(type) {
-		case *types.Basic:
-			switch {
-			case t.Info()&types.IsString != 0:
-				s, ok := v.(string)
-				if !ok {
-					return nil, false, false
-				}
-				args = append(args, strconv.Quote(s))
-			case t.Info()&types.IsInteger != 0:
-				args = append(args, fmt.Sprintf("%s(%v)", t.Name(), v))
-			case t.Info()&types.IsBoolean != 0:
-				args = append(args, fmt.Sprint(v))
-			default:
-				return nil, false, false
-			}
-		default:
+		args = append(args, fmt.Sprint(v))
+	}
+	// strip the package qualifier of the function's own package (in-package test)
+	for i := range args {
+		args[i] = strings.ReplaceAll(args[i], x.pkg.Name()+".", "")
+	}
+	callee := fn.Name()
+	if fn.Signature.Recv() != nil {
+		if len(args) == 0 {
 			return nil, false, false
 		}
+		callee = "(" + args[0] + ")." + fn.Name()
+		args = args[1:]
 	}
 	pkg := x.pkg
 	nres := fn.Signature.Results().Len()
@@ -317,7 +396,7 @@ func (ck *Check) replayOnRealCode(x *Exec, r *Result, model map[string]any) (map
 	for i := 0; i < nres; i++ {
 		lhs = append(lhs, fmt.Sprintf("r%d", i))
 	}
-	call := fmt.Sprintf("%s(%s)", fn.Name(), strings.Join(args, ", "))
+	call := fmt.Sprintf("%s(%s)", callee, strings.Join(args, ", "))
 	var body strings.Builder
 	fmt.Fprintf(&body, "package %s\n\nimport (\n\t\"fmt\"\n\t\"testing\"\n)\n\nfunc TestGovcReplay(t *testing.T) {\n", pkg.Name())
 	body.WriteString("\tdefer func() {\n\t\tif r := recover(); r != nil {\n\t\t\tfmt.Printf(\"GOVC-PANIC %v\\n\", r)\n\t\t}\n\t}()\n")
